@@ -437,7 +437,7 @@ pub fn property() -> Property {
             Sub::Custom(CustomSub { name: "cases", run: fixed_cases, replay: replay_case }),
             Sub::Bytes(BytesSub { name: "compile-errors", f: compile_errors, max_len: 1200, quick: Budget { threads: 8, cases: 25000 }, thorough: Budget { threads: 16, cases: 200_000 }, keep_unreproducible: false }),
             Sub::Bytes(BytesSub { name: "error-api", f: error_api, max_len: 600, quick: Budget { threads: 4, cases: 15000 }, thorough: Budget { threads: 16, cases: 100_000 }, keep_unreproducible: false }),
-            Sub::Bytes(BytesSub { name: "planted", f: planted, max_len: 64, quick: Budget { threads: 8, cases: 20000 }, thorough: Budget { threads: 16, cases: 100_000 }, keep_unreproducible: false }),
+            Sub::Bytes(BytesSub { name: "planted", f: planted, max_len: 64, quick: Budget { threads: 8, cases: 40000 }, thorough: Budget { threads: 16, cases: 100_000 }, keep_unreproducible: false }),
             Sub::Bytes(BytesSub { name: "arbitrary", f: arbitrary, max_len: 2500, quick: Budget { threads: 8, cases: 20000 }, thorough: Budget { threads: 16, cases: 150_000 }, keep_unreproducible: false }),
         ],
     }
